@@ -4,6 +4,7 @@ import glob
 import hashlib
 import json
 import os
+import re
 import shutil
 import subprocess
 import sys
@@ -218,6 +219,28 @@ class Ctx:
             tb = traceback.format_exc(limit=6)
             self.bad(rule, "INTERNAL-ERROR", "%s: %s" % (type(e).__name__, e), tb)
 
+    def share(self, rule, fn, src_rule, keep=None, floor=1):
+        """run a sibling property's rule function and import its obligations under this property's rule id (the clause is a
+        necessary condition of both properties); `keep` filters by obligation key"""
+        sub = type(self)(self.prop, self.tier, self.facts, self.cfg)
+        try:
+            fn(sub)
+        except mir.AnchorMissing as e:
+            sub.bad(src_rule, "ANCHOR-MISSING", str(e), "the item this rule is anchored in was not found; the rule fails closed")
+        n = 0
+        for o in sub.obligations:
+            if keep is not None and not keep(o["key"]):
+                continue
+            o = dict(o)
+            o["key"] = re.sub(r"^C\d\d\.R\w+", rule, o["key"])
+            o["rule"] = rule
+            self.obligations.append(o)
+            n += 1
+            if o["status"] != "holds":
+                self.violations.append(o)
+        self.analysed_bodies |= sub.analysed_bodies
+        self.floor(rule, floor)
+
     def finish_floors(self):
         counts = {}
         for o in self.obligations:
@@ -334,6 +357,8 @@ def run_check(prop, tier, module, explanation, assumptions, level="other", extra
         all_viol += ctx.violations
         notes += ctx.notes
         analysed |= ctx.analysed_bodies
+        from . import feval as _feval
+        analysed |= _feval.EVALUATED_BODIES
         rules_run = ctx.rules_run
     extra = {}
     if tier == "thorough":
